@@ -20,6 +20,11 @@ def gen(rng, tier):
                 k = contents(rng, kl); m = contents(rng, ml)
                 cases.append(Case("hmac %s %s %s" % (t, hexs(k), hexs(m)), "%s %s kl=%d m%%B=%d" % (t, kc(kl), kl if kl <= b + 1 else -1, ml % b), True,
                                   spec="spec.hmac %s %s %s" % (t, hexs(k), hexs(m))))
+        # coinciding operands: key and message are the same bytes / the same length
+        for n in [1, d, b, b + 1]:
+            k = contents(rng, n, "rand"); m2 = contents(rng, n, "rand")
+            cases.append(Case("hmac %s %s %s" % (t, hexs(k), hexs(k)), "%s key==msg %s" % (t, kc(n)), True, spec="spec.hmac %s %s %s" % (t, hexs(k), hexs(k))))
+            cases.append(Case("hmacstr %s %s %s 1 0" % (t, hexs(k), hexs(m2)), "%s str |key|==|msg| %s" % (t, kc(n)), True, spec="spec.hmacstr %s %s %s 1 0" % (t, hexs(k), hexs(m2))))
         # a rejected call, then calls with a SHORTER effective key: stale state would surface here
         for kl_big in [b, b - 1, 2 * b + 1]:
             kbig = contents(rng, kl_big, "ff")
